@@ -20,7 +20,8 @@ def _client_constants():
             name = f.attr if isinstance(f, ast.Attribute) else getattr(f, 'id', None)
             if name == 'Queue' and fn.name == '__init__' and node.args and isinstance(node.args[0], ast.Constant):
                 out['queue_sizes'].append(int(node.args[0].value))
-            if fn.name == 'queue_request' and name == 'put':
+            # (the body of queue_request after its connect(): `_queue_request` since the heartbeat repair)
+            if fn.name in ('queue_request', '_queue_request') and name == 'put':
                 for kw in node.keywords:
                     if kw.arg == 'timeout' and isinstance(kw.value, ast.Constant):
                         out['put_timeout'] = kw.value.value
